@@ -247,7 +247,15 @@ impl AsyncWrite for Transport {
             Err(k) => Poll::Ready(Err(io::Error::new(k, "scripted transport error"))),
         }
     }
-    fn poll_flush(self: Pin<&mut Self>, _cx: &mut Context<'_>) -> Poll<io::Result<()>> {
+    fn poll_flush(self: Pin<&mut Self>, cx: &mut Context<'_>) -> Poll<io::Result<()>> {
+        // the write half's readiness script also governs flushing: a scripted Pending delays a flush just as it delays a write
+        let mut s = self.0.lock().unwrap();
+        if matches!(s.writes.front(), Some(WriteStep::Pending)) {
+            let _ = s.writes.pop_front();
+            s.trace.push(Event::WritePending);
+            cx.waker().wake_by_ref();
+            return Poll::Pending;
+        }
         Poll::Ready(Ok(()))
     }
     fn poll_shutdown(self: Pin<&mut Self>, _cx: &mut Context<'_>) -> Poll<io::Result<()>> {
